@@ -137,6 +137,24 @@ func c11ResolveRoles(c *Ctx, fns []*ssa.Function) *c11Roles {
 		if f.Parent() != nil || !c11HasStringErrResults(f) || r.role[f] != "" || mutates(f) {
 			continue
 		}
+		// ... whose result becomes the old name (link content) of an os.Symlink / os.Link:
+		// other helpers wrapping the archive-entry sanitiser are ordinary functions
+		// (the value flow looks through them)
+		feedsLink := false
+		for _, h := range fns {
+			for _, lk := range CallsTo(h, "os.Symlink", "os.Link") {
+				for _, rt := range Roots(lk.Common().Args[0]) {
+					if ex, ok := rt.(*ssa.Extract); ok && ex.Index == 0 {
+						if call, ok := ex.Tuple.(*ssa.Call); ok && StaticCallee(call) == f {
+							feedsLink = true
+						}
+					}
+				}
+			}
+		}
+		if !feedsLink {
+			continue
+		}
 		calls := Calls(f, func(string) bool { return true })
 		for _, call := range calls {
 			if g := StaticCallee(call); g != nil && r.role[g] == "archive-entry" {
@@ -156,7 +174,7 @@ func c11ResolveRoles(c *Ctx, fns []*ssa.Function) *c11Roles {
 		ok = false
 	}
 	if len(r.SL) == 0 {
-		c.LostAnchor("C11.R2.sanitisers-reject", "link-target sanitiser: a function of ~/content/file returning (string, error) that calls the archive-entry sanitiser")
+		c.LostAnchor("C11.R2.sanitisers-reject", "link-target sanitiser: a function of ~/content/file returning (string, error) that calls the archive-entry sanitiser and whose result is the old name of os.Symlink/os.Link")
 		ok = false
 	}
 	if !ok {
@@ -623,7 +641,7 @@ func runC11(c *Ctx) {
 
 func c11R1(c *Ctx, flow *c11Flow) []*c11Site {
 	const R1 = "C11.R1.sanitiser-dominance"
-	c.Expect(R1, 10)
+	c.Expect(R1, 8)
 	// closed world: every os function taking a path is either a known mutator or known read-only
 	for _, fn := range flow.fns {
 		for _, call := range Calls(fn, func(n string) bool { return strings.HasPrefix(n, "os.") || strings.HasPrefix(n, "io/ioutil.") }) {
@@ -710,8 +728,23 @@ func c11ValidatedLinkContent(flow *c11Flow, s *c11Site, idx int) bool {
 		if g == nil || !isCall || flow.roles.role[g] != "link-target" {
 			continue
 		}
-		for _, a := range cv.Call.Args {
-			if c11SameRoots(a, arg) {
+		// only the argument that is the link content: the parameter the sanitiser tests with IsAbs / returns
+		content := map[int]bool{}
+		for i, prm := range g.Params {
+			t, _, _ := CallTests(g, "path/filepath.IsAbs", func(call *ssa.Call) bool { return SameValue(call.Call.Args[0], prm) })
+			if len(t) > 0 {
+				content[i] = true
+			}
+			for _, a := range RetAtoms(g, 0) {
+				for _, rt := range Roots(a.Val) {
+					if rt == ssa.Value(prm) {
+						content[i] = true
+					}
+				}
+			}
+		}
+		for i, a := range cv.Call.Args {
+			if content[i] && c11SameLoc(a, arg) {
 				if ok, _ := c11SuccessDominates(cv, s.Call.(ssa.Instruction)); ok {
 					return true
 				}
@@ -719,6 +752,37 @@ func c11ValidatedLinkContent(flow *c11Flow, s *c11Site, idx int) bool {
 		}
 	}
 	return false
+}
+
+// c11SameLoc: the same value, or two loads of the same field of the same
+// object with no store to that field in the function.
+func c11SameLoc(a, b ssa.Value) bool {
+	if c11SameRoots(a, b) {
+		return true
+	}
+	ra, rb := Roots(a), Roots(b)
+	if len(ra) != 1 || len(rb) != 1 {
+		return false
+	}
+	la, ok1 := ra[0].(*ssa.UnOp)
+	lb, ok2 := rb[0].(*ssa.UnOp)
+	if !ok1 || !ok2 || la.Op != token.MUL || lb.Op != token.MUL {
+		return false
+	}
+	fa, ok1 := la.X.(*ssa.FieldAddr)
+	fb, ok2 := lb.X.(*ssa.FieldAddr)
+	if !ok1 || !ok2 || fa.Field != fb.Field || !c11SameRoots(fa.X, fb.X) {
+		return false
+	}
+	written := false
+	AllInstrs(la.Parent(), func(in ssa.Instruction) {
+		if st, ok := in.(*ssa.Store); ok {
+			if f, ok := st.Addr.(*ssa.FieldAddr); ok && f.Field == fa.Field && c11SameRoots(f.X, fa.X) {
+				written = true
+			}
+		}
+	})
+	return !written
 }
 
 func c11SameRoots(a, b ssa.Value) bool {
@@ -770,8 +834,14 @@ func c11DotDotTests(fn *ssa.Function, subject func(ssa.Value) bool) (prefixPass,
 		case *ssa.Call:
 			switch CalleeName(x) {
 			case "strings.HasPrefix":
-				if k, ok := constString(x.Call.Args[1]); ok && (k == "../" || k == `..\`) && subject(x.Call.Args[0]) {
-					prefixPass = append(prefixPass, f)
+				if k, ok := constString(x.Call.Args[1]); ok && subject(x.Call.Args[0]) {
+					switch k {
+					case "../", `..\`:
+						prefixPass = append(prefixPass, f)
+					case "..": // broader test: rejects "..", "../x" (and "..x")
+						prefixPass = append(prefixPass, f)
+						eqPass = append(eqPass, f)
+					}
 				}
 			case "path/filepath.IsLocal":
 				if subject(x.Call.Args[0]) {
@@ -815,7 +885,7 @@ func c11AllAtomsPass(atoms []RetAtom, cutOf func() *cut) bool {
 
 func c11R2(c *Ctx, roles *c11Roles) {
 	const R2 = "C11.R2.sanitisers-reject"
-	c.Expect(R2, 14)
+	c.Expect(R2, 12)
 	for _, fn := range roles.SW {
 		c11R2Lexical(c, R2, fn, true)
 	}
@@ -1118,7 +1188,6 @@ func c11R2AncestorWalk(c *Ctx, R2 string, fn *ssa.Function) {
 			"an ancestor that is a symbolic link does not (always) make the sanitiser fail: entries can be written through a planted link"))
 }
 
-
 // c11DerivesFrom: v is computed from a member of set (membership is tested on
 // the raw value before phi/cell expansion, then through calls, tuples,
 // variadic slices and string concatenation).
@@ -1391,8 +1460,15 @@ func c11SliceElems(v ssa.Value, out *[]ssa.Value) {
 
 func c11R3(c *Ctx, flow *c11Flow, sites []*c11Site) {
 	const RF, RL = "C11.R3.final-component-follow", "C11.R3.hardlink-oldname-validated"
-	c.Expect(RF, 3)
-	c.Expect(RL, 1)
+	// no minimum count: a repair legitimately removes these sinks (fd-based chmod, os.Root …); the
+	// sites come from R1's inventory, whose own count guards against vacuity
+	nf := 0
+	for _, s := range sites {
+		if c11Followers[s.Name] || s.Name == "os.Link" {
+			nf++
+		}
+	}
+	c.Exists(RF, "sinks-scanned", token.NoPos, true, fmt.Sprintf("%d link-following / hard-link sinks among %d mutator sites examined", nf, len(sites)))
 	for _, s := range sites {
 		if c11Followers[s.Name] {
 			follows, known := true, true
